@@ -11,6 +11,36 @@ REGISTRY: dict[str, dict[str, str]] = {
         "note": "Trusted: CPython argparse/dataclass semantics, the analyser's binding and reaching-definition model.",
         "design_ref": "DESIGN.md §3 R-OPTFLOW/R-SINK, §4 C15",
     },
+    "C13": {
+        "technique": "static analysis: call-graph reachability, effect / escape analysis, alias origins (confinement argument)",
+        "level": "Confinement: over every function reachable from the formatting entry points no store reaches a location that "
+                 "outlives the call (globals, class attributes, module-level objects or aliases of them, captured variables of "
+                 "escaping closures, cached or import-time instances of stateful classes, mutable defaults); parser and renderer "
+                 "are rebuilt on every parse()/render(). Thorough adds a scan of the marko modules against a frozen exemption list. "
+                 "This is the property static analysis suits best: it is the absence of a shared mutable location on any path.",
+        "note": "Trusted: CPython functools.cache / re caches are transparent; marko 2.2.4 keeps per-parse state in objects "
+                "allocated inside Parser.parse (S8 checks the source); dynamic features (setattr by name, exec) are absent.",
+        "design_ref": "DESIGN.md §3 R-PURE, §4 C13",
+    },
+    "C14": {
+        "technique": "static analysis: effect table over the call graph, CFG must-pass-through and reachability, constant evaluation",
+        "level": "Write-effect confinement and ordering on all paths: the only file-system mutation reachable from a formatting "
+                 "run is the write through the temporary path of strif.atomic_output_file; it is dominated by reformat_text and "
+                 "the read; the input path is a destination only under inplace; backups use '.orig'; the with-body cannot commit "
+                 "a partial file; errors precede writes per file and per run. Thorough checks the strif source contract (sibling "
+                 "temp file, rename after the body, not in finally, backup first).",
+        "note": "Trusted: POSIX rename atomicity, pathlib/strif behave as their source reads, dependencies (marko, regex) do not write files.",
+        "design_ref": "DESIGN.md §3 R-WRITE, §4 C14",
+    },
+    "C16": {
+        "technique": "static analysis: argparse model, table agreement, truth-table evaluation of merge guards, CFG per-iteration guards",
+        "level": "Agreement of the finite tables that implement the precedence: accepted config keys vs Options fields vs consumers, "
+                 "explicit-flag table vs argparse dests, sentinel parser vs main parser (incl. every short option), auto-locked set vs "
+                 "--auto preset, file-name order and loop nesting of the upward search, merge skip guards implied by their atoms, "
+                 "kebab table, wiring of the merge in main. TOML parsing and concrete directory trees are not decided.",
+        "note": "Trusted: argparse semantics (dest derivation, clustering, parse_known_args), tomllib.",
+        "design_ref": "DESIGN.md §3 R-CONFIG, §4 C16",
+    },
 }
 
 NOT_APPLICABLE: dict[str, str] = {
